@@ -10,12 +10,15 @@ package main
 import (
 	"bytes"
 	"fmt"
+	"math/big"
+	"sort"
 	"strings"
 	"time"
 
 	"gitlab.com/gomidi/midi/v2"
 	"gitlab.com/gomidi/midi/v2/drivers"
 	"gitlab.com/gomidi/midi/v2/internal/verifh/engine"
+	"gitlab.com/gomidi/midi/v2/internal/verifh/refsmf"
 	"gitlab.com/gomidi/midi/v2/internal/verifh/vtime"
 	"gitlab.com/gomidi/midi/v2/smf"
 )
@@ -103,7 +106,7 @@ func build(ns []int, pat string, withMeta bool) ([]byte, [][]expectEv) {
 		var tick int64
 		if withMeta {
 			t.Add(0, smf.MetaTrackSequenceName(fmt.Sprintf("t%d", tr)))
-			if tr == 0 {
+			if tr == 0 && tempoLayout == 0 {
 				t.Add(0, smf.MetaTempo(90))
 			}
 		}
@@ -128,7 +131,9 @@ func build(ns []int, pat string, withMeta bool) ([]byte, [][]expectEv) {
 			if withMeta && i%3 == 1 {
 				t.Add(0, smf.MetaText("x"))
 				if tr == 0 && i == 4 {
-					t.Add(0, smf.MetaTempo(200))
+					// layout 0: second of two changes; 1: the only change, faster
+					// than the default; 2: the only change, slower
+					t.Add(0, smf.MetaTempo([]float64{200, 200, 47}[tempoLayout]))
 				}
 			}
 		}
@@ -140,9 +145,54 @@ func build(ns []int, pat string, withMeta bool) ([]byte, [][]expectEv) {
 	return buf.Bytes(), exp
 }
 
+// tempoLayout selects which tempo events build() puts on track 0 when meta
+// events are interspersed (see there).
+var tempoLayout int
+
 func report(sig string, ns []int, pat string, withMeta bool, sel []int, mp map[int]string, what string) {
 	if ctx.SigCount(sig) < 10 {
-		ctx.Violation(sig, map[string]interface{}{"kind": "play", "events_per_track": ns, "pattern": pat, "with_meta": withMeta, "selection": sel, "port_map": fmt.Sprint(mp), "map": mp, "what": what})
+		ctx.Violation(sig, map[string]interface{}{"kind": "play", "events_per_track": ns, "pattern": pat, "with_meta": withMeta, "tempo_layout": tempoLayout, "selection": sel, "port_map": fmt.Sprint(mp), "map": mp, "what": what})
+	}
+}
+
+// schedule returns, for the file in data, the earliest instant (microseconds
+// after the start) at which an event at a tick may be sent: the exact integral
+// of the tempo map found in the file by the reference parser, minus the
+// rounding the tick-to-time conversion is allowed (one microsecond per tempo
+// segment, C11). It does not use the library's TimeAt.
+func schedule(data []byte) func(tick int64) int64 {
+	f, err := refsmf.Parse(data, refsmf.Tolerant)
+	if err != nil {
+		ctx.Guard(false, "reference parser rejects the harness's own file: %v", err)
+		return func(int64) int64 { return 0 }
+	}
+	type ch struct{ tick, us int64 }
+	var chs []ch
+	for _, tr := range f.Tracks {
+		var abs int64
+		for _, e := range tr {
+			abs += int64(e.Delta)
+			if len(e.Msg) == 6 && e.Msg[0] == 0xFF && e.Msg[1] == 0x51 {
+				chs = append(chs, ch{abs, int64(e.Msg[3])<<16 | int64(e.Msg[4])<<8 | int64(e.Msg[5])})
+			}
+		}
+	}
+	sort.SliceStable(chs, func(a, b int) bool { return chs[a].tick < chs[b].tick })
+	res := int64(f.Division)
+	return func(tick int64) int64 {
+		num := new(big.Int) // sum of ticks*us
+		cur, pos, segs := int64(500000), int64(0), int64(1)
+		for _, c := range chs {
+			if c.tick >= tick {
+				break
+			}
+			num.Add(num, big.NewInt((c.tick-pos)*cur))
+			pos, cur = c.tick, c.us
+			segs++
+		}
+		num.Add(num, big.NewInt((tick-pos)*cur))
+		q := new(big.Int).Div(num, big.NewInt(res))
+		return q.Int64() - segs
 	}
 }
 
@@ -273,6 +323,7 @@ func playVariant(data []byte, expAll [][]expectEv, ns []int, pat string, withMet
 	f := dense(ns)
 	var lastAt int64 = -1
 	s := tr.SMF()
+	earliest := schedule(data)
 	for _, ev := range l.evs {
 		if len(ev.data) == 0 || ev.data[0] == 0xFF {
 			report("play:meta-sent", ns, pat, withMeta, sel, mp, fmt.Sprintf("meta or empty message sent: % X", ev.data))
@@ -297,7 +348,7 @@ func playVariant(data []byte, expAll [][]expectEv, ns []int, pat string, withMet
 			report("play:port", ns, pat, withMeta, sel, mp, fmt.Sprintf("track %d went to port %s, mapped to %s", t, ev.port, portOf(t)))
 			return
 		}
-		sched := s.TimeAt(want.tick)
+		sched := earliest(want.tick)
 		if ev.atUS < sched {
 			report("play:early", ns, pat, withMeta, sel, mp, fmt.Sprintf("% X sent at %d us, scheduled at %d us", ev.data, ev.atUS, sched))
 			return
@@ -402,7 +453,16 @@ func space(job int) {
 		for _, r := range rest {
 			ns := append([]int{n0}, r...)
 			for _, pat := range patNames {
-				for _, wm := range []bool{false, true} {
+				for pi, wm := range []bool{false, true, true} {
+					// third round: a single tempo change after the start (faster or
+					// slower than the default tempo), files of one or two tracks
+					tempoLayout = 0
+					if pi == 2 {
+						if ntr > 2 {
+							continue
+						}
+						tempoLayout = 1 + (len(pat)+n0)%2
+					}
 					data, exp := build(ns, pat, wm)
 					for _, sel := range sels {
 						for _, mp := range maps {
@@ -410,6 +470,7 @@ func space(job int) {
 						}
 					}
 				}
+				tempoLayout = 0
 			}
 		}
 	}
@@ -545,11 +606,14 @@ func main() {
 		if i := strings.Index(pat, "+"); i >= 0 {
 			pat = pat[:i]
 		}
+		if tl, ok := m["tempo_layout"].(float64); ok {
+			tempoLayout = int(tl)
+		}
 		data, exp := build(ns, pat, m["with_meta"].(bool))
 		playVariant(data, exp, ns, pat, m["with_meta"].(bool), sel, mp, only, twice, both)
 		ctx.Finish("replay")
 	}
-	ctx.Assume("order among different tracks at equal times is not judged; sysex events are neither required nor forbidden; scheduled time = SMF.TimeAt (checked against the exact tempo integral in C11)")
+	ctx.Assume("order among different tracks at equal times is not judged; sysex events are neither required nor forbidden; scheduled time = exact integral of the tempo events found in the file by the reference parser, less one microsecond per tempo segment (the rounding C11 allows); order across tracks is judged with the library's own TimeAt")
 	ctx.Jobs("play", len(counts), func(j int) { space(j) })
 	ctx.Jobs("many-tracks", 1, func(int) { manyTracks() })
 	ctx.Sample(map[string]interface{}{"events_per_track": []int{13, 7}, "pattern": "one-tick", "selection": "all", "port_map": "default->A, track 1->B"})
